@@ -255,7 +255,22 @@ func (vfs *MemFS) FromSlash(path string) string {
 // reached via multiple paths (due to symbolic links),
 // Getwd may return any one of them.
 func (vfs *MemFS) Getwd() (dir string, err error) {
-	return vfs.CurDir(), nil
+	dir = vfs.CurDir()
+
+	// As os.Getwd, which starts with a stat of the current directory,
+	// Getwd requires search permission on the current directory.
+	_, child, _, err := vfs.searchNode(dir, slmLstat)
+	if c, ok := child.(*dirNode); ok && err == vfs.err.FileExists {
+		c.mu.RLock()
+		ok = c.checkPermission(avfs.OpenLookup, vfs.User())
+		c.mu.RUnlock()
+
+		if !ok {
+			return "", &fs.PathError{Op: "stat", Path: ".", Err: vfs.err.PermDenied}
+		}
+	}
+
+	return dir, nil
 }
 
 // Glob returns the names of all files matching pattern or nil
